@@ -38,7 +38,10 @@ def e2e_job(ctx):
     ctx.build("c02e")
     s = ctx.tlc("MCPipeE2E", "MCPipeE2E.cfg", workers=4, timeout=900, coverage=False)
     ctx.spec_must_hold(s)
-    r = ctx.harness("c02e", ["--vectors", s["out"]], env={"VERIF_ROOT": ROOT}, timeout=1800)
+    # fault scenarios: a reset on either side (real RST from a real socket / RST_STREAM) is a failure of the whole tunnel
+    f = ctx.tlc("MCPipeE2EF", "MCPipeE2EF.cfg", workers=4, timeout=900, coverage=False)
+    ctx.spec_must_hold(f)
+    r = ctx.harness("c02e", ["--vectors", s["out"], "--fault-vectors", f["out"]], env={"VERIF_ROOT": ROOT}, timeout=1800)
     return r
 
 
